@@ -442,3 +442,46 @@ func cliqueCase(wide bool) func(c *ev.Case) {
 		}
 	}
 }
+
+// cliques/labels: vertex labels that are distinct as Go values but look alike
+// once printed, hashed by a home-made function or compared after a conversion
+// (LESSONS class 11): Graph[any] with 1, int64(1), "1", 1.0, true, "true", nil,
+// "<nil>", arrays and structs; Graph[string] with "", " ", "a b" next to "a" and
+// "b", brackets, commas, NUL, composed and decomposed accents.
+var anyLabels = []any{1, int64(1), uint(1), int8(1), "1", 1.0, float32(1), true, "true", nil, "<nil>", [1]int{1}, "[1]",
+	struct{ A int }{1}, "{1}", "1 1", 0, "", "0", -1, "-1", 'a', "a", "97"}
+
+var strLabels = []string{"", " ", "  ", "a", "b", "a b", "b a", "a b c", "c", "[a", "b]", "[a b]", "a,b", ",", "v1", "v1 v2", "v2",
+	"\x00", "a\x00", "\u00e9", "e\u0301", "A", "\n", "a\nb"}
+
+func labelCase(c *ev.Case) {
+	rng := c.Rng
+	n, adj, kind := genGraph(rng, 2, 9)
+	want := maximalCliques(n, adj)
+	pa := rng.Perm(len(anyLabels))
+	la := make([]any, n)
+	for i := range la {
+		la[i] = anyLabels[pa[i]]
+	}
+	if !buildAndCheck(c, la, n, adj, want, 2, kind+" with look-alike labels of several types") {
+		return
+	}
+	ps := rng.Perm(len(strLabels))
+	ls := make([]string, n)
+	for i := range ls {
+		ls[i] = strLabels[ps[i]]
+	}
+	if !buildAndCheck(c, ls, n, adj, want, 2, kind+" with look-alike string labels") {
+		return
+	}
+	c.Add("cl_graphs_with_lookalike_labels", 2)
+	c.Add("cl_lookalike_cliques_compared", int64(4*len(want)))
+	h := ev.Mix('L', uint64(n))
+	for _, a := range adj {
+		h = ev.Mix(h, uint64(a))
+	}
+	c.Distinct(h)
+	if c.WantSample() {
+		c.Sample(fmt.Sprintf("%s: %s with labels %#v and %q -> %d maximal cliques each", kind, fmtGraph(n, adj), la, ls, len(want)))
+	}
+}
